@@ -17,6 +17,9 @@ TECH.update({
 TECH["C02"]="rapid property-based testing of the emitted Go server with raw HTTP requests; oracle = independent reference request binder (URL + body -> expected message or 400)"
 TECH["C09"]="rapid property-based testing of the emitted Go server with raw HTTP: header value sets vs an independent reference header validator and merge semantics"
 TECH["C10"]="rapid property-based testing through the generated Go client: error source x error hook behaviour x content type against the documented error contract"
+TECH["C11"]="rapid structure-aware mutation fuzzing of request bodies against the emitted Go server, and of responses against the emitted Go client; oracles: clean 200/400, no dispatch of undecodable bodies, no panic/hang"
+TECH["C17"]="rapid-generated call multisets executed concurrently under the race detector; oracle = race report + per-call equality with isolated execution"
+TECH["C20"]="rapid property-based testing of the emitted mock server: build/vet oracle plus response decode/example-membership oracles"
 TEXT={
  "C12":("Generated-input search: every rule x placement cell of the documented catalogue is injected into rapid-drawn valid schemas and judged at the process boundary of the real plugins; the converse is checked on every base schema. Exploration, not proof: cells are enumerated, surroundings sampled.","§5 C12"),
  "C14":("Differential property test over rapid-drawn schemas: byte identity of same-named files, plus behavioural equality of server-only and client-only builds on generated values. Exploration.","§5 C14"),
@@ -32,6 +35,9 @@ TEXT.update({
 TEXT["C02"]=("For every RPC with URL-bound fields rapid draws request lines (valid / invalid / grey URL values per kind, encodings, missing parameters) x bodies x content types; the handler-visible request or the 400 ValidationError is compared with a reference binder written from the documented contract. Exploration with value shrinking.","§5 C02")
 TEXT["C09"]=("For every RPC with declared headers rapid draws header value sets (absent, empty, must-accept, must-reject, grey per type/format) and body validity; dispatch / 400-with-one-violation-per-offender is judged by a reference validator H. Exploration with shrinking.","§5 C09")
 TEXT["C10"]=("rapid draws an error source, a hook behaviour and a content type per call; status, headers, body (decoded in the request's content type) and the Go client's error value are compared with the documented contract; violation paths come from running the reference validator on the same request. Exploration.","§5 C10")
+TEXT["C11"]=("Valid model-encoded bodies are mutated (wrong type per field at depth, truncation, trailing data, top-level scalars, deep nesting, invalid UTF-8, duplicate keys, random and truncated wire data) under many content types; server verdicts must be 200 or a well-formed 400 and invalid-in-every-form bodies are never dispatched. The Go client is fed arbitrary status/content-type/body combinations. Exploration; bytes-level coverage guidance is not used.","§5 C11")
+TEXT["C17"]=("Random multisets of 10-80 calls over all routes run at parallelism 1-32 through shared generated clients and one shared generated server in a -race build; each call's result is compared with the same call issued alone. Schedules are sampled, not enumerated: the weakest claim of the set.","§5 C17")
+TEXT["C20"]=("Schemas are generated with generate_mock=true; the package must build and vet, the mock-backed generated server must answer valid requests with 200 and a body that decodes to the response type in its documented JSON form, and fields with examples must hold a parsable example. Exploration on the sub-domain the mock generator compiles for; the rest is pinned as known findings.","§5 C20")
 NOTE={
  "C12":"Trusted: schema generator + protodesc gate stand in for protoc; error text naming the offender is the 'names the offender' criterion.",
  "C14":"Trusted: protoc-gen-go, Go toolchain, protovalidate stand-in (not exercised by codecs).",
@@ -47,6 +53,9 @@ NOTE.update({
 NOTE["C02"]="Trusted: reference binder B judges only clearly valid / clearly invalid URL spellings; in-memory HTTP; TS server half is exercised by C08's Node runs, not here."
 NOTE["C09"]="Trusted: must-accept/must-reject sets derived from RFC 4122 / RFC 3339 / sebuf docs; grey values not judged; TS server half exercised in C08."
 NOTE["C10"]="Trusted: stand-in protovalidate (standard-rule subset) produces the rule violations on both sides; wrapped errors are judged as plain errors (they are not themselves protobuf messages); TS client half exercised in C08."
+NOTE["C11"]="Trusted: reference model for the valid body, encoding/json + protojson grammar knowledge for 'invalid in every accepted form'; timing bound is 100x median and >= 2 s, re-checked before it counts."
+NOTE["C17"]="Trusted: Go race detector; the harness does not own the scheduler; in-memory transport."
+NOTE["C20"]="Trusted: as C13 for the build half; OpenAPI conformance of mock bodies is left to C06's validator."
 claimed=sorted(TECH)
 checks=[]
 for p in claimed:
